@@ -173,7 +173,7 @@ impl Search {
         })?;
         if let Some(name) = entry.file_name().to_str() {
           for justfile_name in JUSTFILE_NAMES {
-            if name.eq_ignore_ascii_case(justfile_name) {
+            if name.eq_ignore_ascii_case(justfile_name) && !entry.path().is_dir() {
               candidates.insert(entry.path());
             }
           }
